@@ -72,7 +72,7 @@ Ltac solve_acc :=
   unfold acc_spec; cbv zeta; unfold V;
   match goal with |- Forall2 _ ?l _ => let v := eval vm_compute in l in change l with v end;
   repeat (apply Forall2_cons;
-          [ split; [reflexivity | split; [reflexivity | let env := fresh "env" in intro env; cbn [aeval a_exp snd fst]; ring ]] | ]);
+          [ split; [reflexivity | split; [reflexivity | let env := fresh "env" in intro env; cbn [aeval a_exp snd fst]; unfold Qdiv; ring ]] | ]);
   apply Forall2_nil.
 
 
@@ -124,4 +124,24 @@ Lemma acc_add_ss_assemblage : acc_spec "add_ss_assemblage" gen_acc
   (let e := AMul (V "dlocal0") (V "elt_list[].coef") in
    [(T_DELTA, 0%Z, AConst 0); (T_DELTA, 0%Z, V "dlocal0"); (T_ELT, 1%Z, AConst 1); (T_H, 1%Z, e);
     (T_MOLES, 0%Z, ASub (V "cxxSScomp.Get_moles") (V "dlocal0")); (T_O, 1%Z, e); (T_TOT, 1%Z, e)]).
+Proof. solve_acc. Qed.
+
+Ltac solve_has :=
+  unfold acc_has; cbv zeta; unfold V;
+  match goal with |- Exists _ ?l => let v := eval vm_compute in l in change l with v end;
+  repeat first [ solve [ apply Exists_cons_hd; split; [reflexivity | split; [reflexivity |
+                         let env := fresh "env" in intro env; cbn [aeval a_exp snd fst]; unfold Qdiv; ring ]] ]
+               | apply Exists_cons_tl ].
+
+(* add_mix hands each solution to add_solution with extensive = its mixing fraction (not the normalised one) *)
+Lemma acc_add_mix :
+  acc_has "add_mix" gen_acc (T_CALL, 1%Z, V "dlocal2") /\
+  acc_count "add_mix" gen_acc T_CALL = 1%nat /\
+  acc_has "add_mix" gen_acc (T_LOCAL, 0%Z, ASub (V "dlocal2") (V "iter(cxxMix.Get_mixComps).second")).
+Proof. split; [solve_has | split; [vm_compute; reflexivity | solve_has]]. Qed.
+
+(* reaction_calc: every reactant enters the element list with its own coefficient *)
+Lemma acc_reaction_calc : acc_spec "reaction_calc" gen_acc
+  [(T_ELT, 1%Z, V "dlocal0");
+   (T_LOCAL, 0%Z, ASub (V "dlocal0") (V "iter(cxxReaction.Get_reactantList).second"))].
 Proof. solve_acc. Qed.
